@@ -11,7 +11,7 @@ import opalg_gen as G
 import opalg_trees as T
 
 PROP = "C05"
-CLAIMED = False
+CLAIMED = True
 ENGINE = "OpAlg"
 DESIGN_REF = "DESIGN.md §5.1"
 TECHNIQUE = (
